@@ -104,7 +104,7 @@ def r1(R):
 
 @rule('C12.R2', 'rollback order: abort registered objects, disown objects '
       'created later, capture the index, reset, invalidate the captured '
-      'index', props=['C14'], min_instances=1)
+      'index', props=['C14', 'C11'], min_instances=1)
 def r2(R):
     conn = R.prog.cls(CONN)
     f = R.method(conn, '_rollback_savepoint')
@@ -707,3 +707,50 @@ def _membership_only(cond):
             isinstance(c.ops[0], ast.In)
     return isinstance(cond, ast.Compare) and len(cond.ops) == 1 and \
         isinstance(cond.ops[0], ast.NotIn)
+
+
+# ----------------------------------------------------------------- C12.R13
+@rule('C12.R13', 'discarding the savepoint data switches back to the real '
+      'storage BEFORE it invalidates what the savepoints stored: an object '
+      'that cannot be a ghost (a persistent class) re-reads its state the '
+      'moment it is invalidated -- from whatever storage is current',
+      props=['C02', 'C11'], min_instances=1)
+def r13(R):
+    conn = R.prog.cls(CONN)
+    f = R.method(conn, '_abort_savepoint')
+    g, b, F = R.cfg(f, conn, max_depth=1)
+    seen = [0]
+
+    def edge(node, st, lab, tgt):
+        if lab in ('e', 'eb'):
+            return st
+        for op in F.ops(node):
+            if op.kind == 'store' and path_is(op.path, ('self', '_storage')):
+                st = True
+        return st
+
+    def at(node, st):
+        for op in F.ops(node):
+            if op.kind == 'call' and path_is(
+                    op.path, ('self', '_cache', 'invalidate')):
+                seen[0] += 1
+                if not st:
+                    return Violation(
+                        '_abort_savepoint invalidates the objects the '
+                        'savepoints stored while the savepoint storage is '
+                        'still the connection\'s storage: a persistent '
+                        'class re-reads its state at once and gets the '
+                        'ABORTED savepoint record back; nothing repairs it '
+                        'later -- the connection keeps showing state no '
+                        'transaction committed')
+        return st
+
+    vs, stats = explore(g, False, at=at, edge=edge)
+    R.count(stats)
+    R.instance('Connection._abort_savepoint', invalidations=seen[0])
+    R.require(seen[0] >= 1 or vs, '_abort_savepoint no longer invalidates '
+              'the savepoint index')
+    for v in vs[:1]:
+        R.violation(v.node, v.message, g, v.path,
+                    key='savepoint index invalidated before the storage '
+                        'was switched back')
